@@ -22,7 +22,7 @@ RULE = ('per configuration (backend x backoff x messages x recipients x pools x 
         'state); obligations at quiescence: no recipient outstanding, nothing removed while outstanding, every attempt '
         'carries exactly the outstanding recipients, every failed recipient of a message with a sender is named in an '
         'enqueued bounce.  Non-trivial = execution with a retry, a partial result or a bounce.')
-ASSUMPTIONS = ['ScriptedRelay outcomes are restricted to the documented Relay.attempt contract (complete mappings, values '
+ASSUMPTIONS = ['real PipeRelay/MaildropRelay/StaticSmtpRelay/StaticLmtpRelay configurations use a scripted downstream (fake Popen, scripted peer over in-memory sockets)', 'ScriptedRelay outcomes are restricted to the documented Relay.attempt contract (complete mappings, values '
                'None / Reply / relay errors)', 'fake redis client and fake cloud object store (aws.py semantics); in-memory FS for disk',
                'gevent FIFO dispatch of ready callbacks is platform semantics']
 
@@ -49,6 +49,10 @@ def configs(tier, seed):
         cfgs.append(dict(backend=b, backoff='r10-20', n=1, messages=1, script=[['enqueue', 0], ['flush']], d=2, dd=3, menu=dict(per_recipient=False)))
         cfgs.append(dict(backend=b, backoff='r0x2', n=2, messages=1, d=0, dd=3, menu=dict(reversed_maps=True, boom=False, reply_ok=False)))
         cfgs.append(dict(backend=b, backoff='r0x2', n=3, messages=1, d=0, dd=2, menu=dict(reversed_maps=True, boom=False, reply_ok=False)))
+        # real relay classes in front of a scripted downstream: what they return meets what the queue understands
+        for rk in ('pipe', 'pipe-whole', 'maildrop', 'smtp', 'lmtp'):
+            if b in ('dict', 'disk') or not q:
+                cfgs.append(dict(backend=b, backoff='r0x2', n=2, messages=1, d=0, dd=3 if q else 4, relay_kind=rk, menu={}))
         if not q:
             cfgs.append(dict(backend=b, backoff='r10-20', n=3, messages=1, d=1, dd=3, menu={}))
             cfgs.append(dict(backend=b, backoff='r10', n=2, messages=2, d=2, dd=2, menu={}, relay_pool=2, store_pool=2))
@@ -83,7 +87,7 @@ def run_one(cfg, ch):
 
 def signature(cfg, qw, kind):
     errs = sorted(set(e[0] for e in qw.errors))
-    partial = any((a['outcome'] or '').startswith(('map', 'seq')) for a in qw.attempts)
+    partial = any((a['outcome'] or '').startswith(('map', 'seq', 'rmap')) for a in qw.attempts)
     rounds = max([v['attempts'] for v in qw.ledger.values()] or [0])
     mech = 'pool-deadlock' if getattr(qw, 'pool_deadlock', False) else 'other'
     marks = {}
@@ -92,7 +96,7 @@ def signature(cfg, qw, kind):
             marks[e[3]] = marks.get(e[3], 0) + 1
     if mech == 'other' and max(marks.values() or [0]) >= 2:
         mech = 'multi-round-marking'
-    return {'kind': kind, 'backend': cfg['backend'], 'exception': ','.join(errs) or 'none',
+    return {'kind': kind, 'backend': cfg['backend'], 'exception': ','.join(errs) or 'none', 'relay': cfg.get('relay_kind', 'scripted'),
             'index_model': 'differs' if qw.index_model_differs else 'matches',
             'partial_result': partial, 'second_round': rounds >= 2, 'mechanism': mech}
 
